@@ -123,7 +123,9 @@ impl ClientConnection {
                     if line.is_empty() {
                         break;
                     };
-                    headers.push(match FromStr::from_str(line.as_str().trim()) {
+                    // not trimmed: a line starting with whitespace (obsolete line folding) must
+                    // be rejected, not read as a header of its own; the value is trimmed by the parser
+                    headers.push(match FromStr::from_str(line.as_str()) {
                         // TODO: remove this conversion
                         Ok(h) => h,
                         _ => return Err(ReadError::WrongHeader(version)),
